@@ -151,7 +151,11 @@ class C11(Prop):
             r = call(S.is_single_peaked, mk())
             obs["elo"] = r if r[0] != "ok" else ("ok", bool(r[1][0]))
         if case.get("ilp"):
-            r = call(S.is_single_peaked_ILP, mk(), limit=60)
+            from harness import ilpcap
+            store = []
+            with ilpcap.capture(store):
+                r = call(S.is_single_peaked_ILP, mk(), limit=60)
+            obs["ilp_capture"] = store[0] if len(store) == 1 else None
             if r[0] == "ok":
                 v, status, ax = r[1]
                 r = ("ok", [bool(v), str(status), [int(a) for a in ax] if ax is not None else None])
@@ -168,8 +172,15 @@ class C11(Prop):
         w = []
         if "ilp" in obs and obs["ilp"][0] == "ok" and obs["ilp"][1][2] is not None:
             w = [obs["ilp"][1][2]]
-        return [{"op": "dom.sp", "type": case["type"], "alts": case["alts"], "orders": case["orders"],
+        reqs = [{"op": "dom.sp", "type": case["type"], "alts": case["alts"], "orders": case["orders"],
                  "axes": obs["axes"], "witnesses": w, "brute": len(case["alts"]) <= 7}]
+        cap = obs.get("ilp_capture")
+        if cap is not None:
+            d = {"op": "ilp.model", "which": "sp", "alts": case["alts"], "orders": case["orders"]}
+            if cap["solution"] is not None:
+                d["solution"] = [[k, [round(v), 1]] for k, v in cap["solution"].items()]
+            reqs.append(d)
+        return reqs
 
     def nontrivial_key(self, case, obs):
         if case["kind"] == "guard" or len(case["orders"]) < 2 or len(case["alts"]) < 3:
@@ -218,6 +229,20 @@ class C11(Prop):
                     P(f"ILP axis {ax} is not a permutation of the alternatives passing the test", "ilp/axis")
                 if "elo" in obs and obs["elo"][0] == "ok" and obs["elo"][1] != v:
                     P("is_single_peaked and is_single_peaked_ILP disagree on a strict profile", "agree/elo-ilp")
+            cap = obs.get("ilp_capture")
+            if cap is not None and len(replies) > 1:
+                from harness import ilpcap
+                from collections import Counter
+                mine = Counter(ilpcap.model_constraints(replies[1]))
+                theirs = Counter(cap["constraints"])
+                if mine != theirs:
+                    diff = list((theirs - mine).items())[:2] + list((mine - theirs).items())[:2]
+                    out.append(Problem("disagreement", case, "the ILP handed to the solver differs from the model's "
+                                       f"constraint system ({sum((theirs - mine).values())} extra, "
+                                       f"{sum((mine - theirs).values())} missing), e.g. {diff}", "model/ilp-constraints"))
+                elif replies[1]["solutionFeasible"] is False:
+                    out.append(Problem("disagreement", case, "the solver's (rounded) solution violates the model's "
+                                       "constraints", "model/ilp-solution"))
         return out
 
     def shrink_candidates(self, case):
